@@ -204,10 +204,8 @@ def canon_enum(e):
             out.append({"name": n.lower(), "value": str(prev)})
         else:
             out.append({"name": n.lower(), "value": squash(v)})
-            try:
-                prev = int(v)
-            except ValueError:
-                prev = None
+            m_ = re.match(r"^\s*([+-]?\d+)(?:_\w+)?\s*$", v)       # an integer literal, with or without kind suffix
+            prev = int(m_.group(1)) if m_ else None
     return out
 
 
